@@ -1309,6 +1309,11 @@ def run(chk: core.Check):
             chk.branch("reused-instance-mask-other-photon-number")
         handle(chk, spec, n, engine, masks, reuse=True, order=order, mask_with_n=False, configure=configure,
                degenerate=deg)
+    # --- sessions: the configuration glue against the Lean state machine (same script for the four engines)
+    for i in range(chk.pick(24, 80)):
+        script = gen_session(rng, i, chk.tier == "quick")
+        for engine in SESSION_ENGINES:
+            handle_session(chk, engine, script)
 
 
 def gen_degenerate_case(rng, m, two_mode_only, shape, forced):
@@ -1346,12 +1351,6 @@ def credit_degenerate(chk, spec, engine, masks, kinds):
         chk.branch("degenerate-all")
     if masks:
         chk.branch("degenerate-mask")
-
-    # --- sessions: the configuration glue against the Lean state machine (same script for the four engines)
-    for i in range(chk.pick(24, 80)):
-        script = gen_session(rng, i, chk.tier == "quick")
-        for engine in SESSION_ENGINES:
-            handle_session(chk, engine, script)
 
 
 def handle(chk, spec, n, engine, masks, reuse=False, order=None, mask_with_n=True, configure=True, degenerate=None):
